@@ -1,0 +1,123 @@
+//! Verification hooks (compiled only with `--cfg amiquip_verif`).
+//!
+//! Nothing in here changes behavior: the probes wrap crate-private components so
+//! an external harness can drive the real code directly, and the observer /
+//! failpoint callbacks are no-ops unless a harness installs them.
+
+use super::channel_slots::ChannelSlots;
+use super::content_collector::{CollectorResult, ContentCollector};
+use crate::errors::*;
+use crate::{Delivery, Get, Return};
+use amq_protocol::frame::AMQPContentHeader;
+use amq_protocol::protocol::basic::{Deliver, GetOk, Return as AmqpReturn};
+use std::sync::{Arc, RwLock};
+
+/// What a `ContentCollector` call produced.
+#[derive(Debug)]
+pub enum Collected {
+    /// Nothing complete yet.
+    Pending,
+    /// A delivery for the given consumer tag.
+    Delivery(String, Delivery),
+    /// A returned message.
+    Return(Return),
+    /// The answer to a get.
+    Get(Get),
+}
+
+fn convert(r: Option<CollectorResult>) -> Collected {
+    match r {
+        None => Collected::Pending,
+        Some(CollectorResult::Delivery((tag, d))) => Collected::Delivery(tag, d),
+        Some(CollectorResult::Return(r)) => Collected::Return(r),
+        Some(CollectorResult::Get(g)) => Collected::Get(g),
+    }
+}
+
+/// Thin wrapper over the real `ContentCollector`.
+pub struct CollectorProbe(ContentCollector);
+
+impl CollectorProbe {
+    pub fn new(channel_id: u16) -> Self {
+        CollectorProbe(ContentCollector::new(channel_id))
+    }
+    pub fn deliver(&mut self, d: Deliver) -> Result<()> {
+        self.0.collect_deliver(d)
+    }
+    pub fn return_(&mut self, r: AmqpReturn) -> Result<()> {
+        self.0.collect_return(r)
+    }
+    pub fn get_ok(&mut self, g: GetOk) -> Result<()> {
+        self.0.collect_get(g)
+    }
+    pub fn header(&mut self, h: AMQPContentHeader) -> Result<Collected> {
+        self.0.collect_header(h).map(convert)
+    }
+    pub fn body(&mut self, b: Vec<u8>) -> Result<Collected> {
+        self.0.collect_body(b).map(convert)
+    }
+}
+
+/// Thin wrapper over the real `ChannelSlots`.
+pub struct SlotsProbe(ChannelSlots<()>);
+
+impl SlotsProbe {
+    pub fn new(channel_max: u16) -> Self {
+        let mut s = ChannelSlots::new();
+        s.set_channel_max(channel_max);
+        SlotsProbe(s)
+    }
+    pub fn insert(&mut self, id: Option<u16>) -> Result<u16> {
+        self.0.insert(id, |id| Ok(((), id)))
+    }
+    pub fn remove(&mut self, id: u16) -> bool {
+        self.0.remove(id).is_some()
+    }
+    pub fn drain(&mut self) -> Vec<u16> {
+        self.0.drain().map(|(id, ())| id).collect()
+    }
+    pub fn contains(&self, id: u16) -> bool {
+        self.0.get(id).is_some()
+    }
+    pub fn open_ids(&self) -> Vec<u16> {
+        self.0.iter().map(|(id, _)| *id).collect()
+    }
+}
+
+/// Events reported by the I/O thread to an installed observer.
+#[derive(Debug, Clone)]
+pub enum IoEvent {
+    /// `poll` returned these tokens, in this order.
+    BatchStart { tokens: Vec<usize> },
+    /// The batch has been handled and the loop is about to poll again.
+    BatchEnd {
+        outbuf_len: usize,
+        sealed: bool,
+        channels_registered: bool,
+    },
+    /// `run_io_loop` is returning.
+    LoopExit { ok: bool },
+    /// A named point was reached.
+    Failpoint { name: &'static str },
+}
+
+type Observer = Arc<dyn Fn(&IoEvent) + Send + Sync>;
+
+static OBSERVER: RwLock<Option<Observer>> = RwLock::new(None);
+
+/// Install (or remove) the process-wide observer. It is invoked on I/O threads
+/// and may block.
+pub fn set_io_observer(obs: Option<Observer>) {
+    *OBSERVER.write().unwrap() = obs;
+}
+
+pub(crate) fn emit(ev: IoEvent) {
+    let obs = OBSERVER.read().unwrap().clone();
+    if let Some(obs) = obs {
+        obs(&ev);
+    }
+}
+
+pub(crate) fn failpoint(name: &'static str) {
+    emit(IoEvent::Failpoint { name });
+}
